@@ -509,4 +509,20 @@ example :
     (run 200 c!"t.sd" c!"print(1 % 0)\n").stderr = c!"t.sd:1:9: '1 % 0' caused an integer overflow\n" := by
   decide +kernel
 
+/-! ## the host primitives, read off the source on every run
+
+`Gen.binopPrims` is regenerated by tools/extract.py from the arms of `apply_binary_operation`: which `i64` method (and
+which other arithmetic or bit operator, listed as `raw …`) each arm computes with.  The model's `arith` is "the exact
+result if it fits 64 bits, else the overflow diagnostic"; that is what `checked_add/sub/mul/div` are, and what a zero test
+followed by `wrapping_rem` is (only `MIN % -1` differs from `%`, and there the exact result `0` fits).  A wrapping or
+saturating method, or a hand-written shortcut next to the primitive, changes this table and the theorem no longer checks. -/
+theorem source_primitives_as_modelled :
+    Gen.binopPrims =
+      [(c!"Sum:Int:Int", [c!"checked_add(b)"]), (c!"Sum:Str:Str", [c!"concat"]), (c!"Sum:List:List", [c!"concat"]),
+       (c!"Sub:Int:Int", [c!"checked_sub(b)"]), (c!"Mul:Int:Int", [c!"checked_mul(b)"]), (c!"Div:Int:Int", [c!"checked_div(b)"]),
+       (c!"Mod:Int:Int", [c!"wrapping_rem(b)", c!"b == 0 -> overflow"]),
+       (c!"And:Bool:Bool", [c!"a && b"]), (c!"Or:Bool:Bool", [c!"a || b"]),
+       (c!"Gt:Int:Int", [c!"a > b"]), (c!"Gte:Int:Int", [c!"a >= b"]), (c!"Lt:Int:Int", [c!"a < b"]), (c!"Lte:Int:Int", [c!"a <= b"])] := by
+  decide
+
 end Seed.C06
